@@ -6,6 +6,8 @@ package lib
 // repository).  Keep this file tiny: it is compiled into every check that touches this package.
 
 import (
+	"reflect"
+	"strings"
 	"time"
 
 	"github.com/go-redis/redis/v8"
@@ -53,8 +55,8 @@ func (rm *RegistrationManager) VerifUsed(reg *DecoyRegistration) (used, tracked 
 	}
 	// independent of how the map is keyed: find the record by what it records
 	id, ph := tr.GetIdentifier(reg), reg.PhantomIp.String()
-	for _, t := range r.decoysTimeouts {
-		if t.decoy == ph && t.identifier == id {
+	for key, t := range r.decoysTimeouts {
+		if d, i := verifTimeoutOf(t, key); d == ph && i == id {
 			return t.status == regStatusUsed, true
 		}
 	}
@@ -67,4 +69,18 @@ func (rm *RegistrationManager) VerifTotals() (int, int) {
 	r.m.RLock()
 	defer r.m.RUnlock()
 	return r.totalRegistrations(), len(r.decoysTimeouts)
+}
+
+// verifTimeoutOf tells which registration a timeout record belongs to; the record's fields are read through
+// reflection (a tree in which they were renamed or removed still compiles), the map key is the fallback.
+func verifTimeoutOf(t *DecoyTimeout, key string) (decoy, identifier string) {
+	v := reflect.ValueOf(t).Elem()
+	fd, fi := v.FieldByName("decoy"), v.FieldByName("identifier")
+	if fd.IsValid() && fi.IsValid() && fd.Kind() == reflect.String && fi.Kind() == reflect.String {
+		return fd.String(), fi.String()
+	}
+	if i := strings.Index(key, "|"); i >= 0 {
+		return key[:i], key[i+1:]
+	}
+	return "", ""
 }
